@@ -4,11 +4,12 @@
    by a canary zone that AddressSanitizer poisons exactly at byte `size`; a store there is reported by ASan
    (recover mode, callback below) and also seen in the canaries, without damaging other heap blocks.
    Buffers are built by the generated JSON parser of harness/print_sweep.fbs and checked by the generated verifier.
-   A per-print interval timer turns a printer that does not return into the reply field hang=1.
+   A per-print CPU-time interval timer turns a printer that does not return into the reply field hang=1.
 
    commands
      load <hex json>                      -> OK <bufsize> <verify code>          | PARSEERR <code> <pos>
      ref <flags> <indent>                 -> R <ret> <err> <over> <hang> <ntr> <trh> <hex text>   (growing buffer, default size; becomes the reference)
+     reffile <flags> <indent>             -> same through the file printer (used while base64 cannot be printed to buffers)
      dyn <flags> <indent> <size>          -> <ret>:<err>:<over>:<hang>:<ok>:<ntr>:<trh>
      file <flags> <indent>                -> <ret>:<err>:<over>:<hang>:<ok>:<ntr>:<trh>
      sweep <flags> <indent> <from> <to>   -> one such record per fixed buffer size, S = skipped after three hangs
@@ -121,8 +122,9 @@ static void hook(flatcc_json_printer_t *ctx) { g_real_flush = ctx->flush; ctx->f
 /* ---------------------------------------------------------------- hang detection */
 static sigjmp_buf g_jb; static volatile int g_armed;
 static void on_alarm(int s) { (void)s; if (g_armed) { g_armed = 0; siglongjmp(g_jb, 1); } }
-static void arm(long ms) { struct itimerval it; memset(&it, 0, sizeof(it)); it.it_value.tv_sec = ms / 1000; it.it_value.tv_usec = (ms % 1000) * 1000; g_armed = 1; setitimer(ITIMER_REAL, &it, 0); }
-static void disarm(void) { struct itimerval it; memset(&it, 0, sizeof(it)); g_armed = 0; setitimer(ITIMER_REAL, &it, 0); }
+/* CPU time of this process, not wall clock: a loaded machine must not look like a printer that does not return */
+static void arm(long ms) { struct itimerval it; memset(&it, 0, sizeof(it)); it.it_value.tv_sec = ms / 1000; it.it_value.tv_usec = (ms % 1000) * 1000; g_armed = 1; setitimer(ITIMER_PROF, &it, 0); }
+static void disarm(void) { struct itimerval it; memset(&it, 0, sizeof(it)); g_armed = 0; setitimer(ITIMER_PROF, &it, 0); }
 static long g_timeout_ms = 400;
 
 /* ---------------------------------------------------------------- state */
@@ -192,7 +194,7 @@ done:
     r->over = g_over + (g_asan_hit ? 1000000 : 0);
 }
 
-static void print_file(int flags, int indent, struct res *r)
+static void print_file(int flags, int indent, struct res *r, int make_ref)
 {
     flatcc_json_printer_t ctx; char *mem = 0; size_t memlen = 0; FILE *fp = open_memstream(&mem, &memlen);
     memset(r, 0, sizeof(*r)); g_over = 0; g_asan_hit = 0; memset(&ctx, 0, sizeof(ctx));
@@ -205,8 +207,12 @@ static void print_file(int flags, int indent, struct res *r)
     g_tracing = 0;
     r->err = flatcc_json_printer_get_error(&ctx);
     fflush(fp);
-    if (r->ret >= 0)
+    if (r->ret >= 0 && make_ref) {
+        free(g_ref); g_ref = (char *)malloc(memlen + 1); memcpy(g_ref, mem, memlen); g_ref[memlen] = 0; g_reflen = memlen;
+        g_refret = ((int)memlen == r->ret) ? r->ret : -3; r->ok = g_refret >= 0;
+    } else if (r->ret >= 0)
         r->ok = g_refret >= 0 && r->ret == g_refret && memlen == g_reflen && memcmp(mem, g_ref, memlen) == 0;
+    else if (make_ref) { g_refret = -1; g_reflen = 0; }
 done:
     disarm(); g_tracing = 0;
     r->ntr = g_ntr; r->trh = g_trh;
@@ -238,7 +244,7 @@ int main(void)
 {
     char *line, *t[8]; int n;
     struct sigaction sa; memset(&sa, 0, sizeof(sa)); sa.sa_handler = on_alarm; sigemptyset(&sa.sa_mask); sa.sa_flags = SA_NODEFER;
-    sigaction(SIGALRM, &sa, 0);
+    sigaction(SIGPROF, &sa, 0);
 #ifdef PS_ASAN
     __asan_set_error_report_callback(on_asan);
 #endif
@@ -256,10 +262,15 @@ int main(void)
             printf("R %d %d %ld %d %ld %llu ", r.ret, r.err, r.over, r.hang, r.ntr, (unsigned long long)r.trh);
             if (r.ret >= 0 && g_refret >= 0) hx_print((const uint8_t *)g_ref, g_reflen); else printf("-");
             printf("\n");
+        } else if (!strcmp(t[0], "reffile") && n == 3) {
+            struct res r; print_file(atoi(t[1]), atoi(t[2]), &r, 1);
+            printf("R %d %d %ld %d %ld %llu ", r.ret, r.err, r.over, r.hang, r.ntr, (unsigned long long)r.trh);
+            if (r.ret >= 0 && g_refret >= 0) hx_print((const uint8_t *)g_ref, g_reflen); else printf("-");
+            printf("\n");
         } else if (!strcmp(t[0], "dyn") && n == 4) {
             struct res r; print_dyn((size_t)atol(t[3]), atoi(t[1]), atoi(t[2]), &r, 0); put_res(&r); printf("\n");
         } else if (!strcmp(t[0], "file") && n == 3) {
-            struct res r; print_file(atoi(t[1]), atoi(t[2]), &r); put_res(&r); printf("\n");
+            struct res r; print_file(atoi(t[1]), atoi(t[2]), &r, 0); put_res(&r); printf("\n");
         } else if (!strcmp(t[0], "sweep") && n == 5) {
             long a = atol(t[3]), b = atol(t[4]), sz; int hangs = 0;
             for (sz = a; sz <= b; ++sz) {
@@ -274,7 +285,7 @@ int main(void)
             struct res r; long i;
             if (t[1][0] == 'f') print_fixed((size_t)atol(t[4]), atoi(t[2]), atoi(t[3]), &r);
             else if (t[1][0] == 'd') print_dyn((size_t)atol(t[4]), atoi(t[2]), atoi(t[3]), &r, 0);
-            else print_file(atoi(t[2]), atoi(t[3]), &r);
+            else print_file(atoi(t[2]), atoi(t[3]), &r, 0);
             put_res(&r); printf(" ");
             for (i = 0; i < r.ntr && i < 4096; ++i) printf("%s%ld", i ? "," : "", g_trv[i]);
             if (r.ntr == 0) printf("-");
